@@ -770,6 +770,86 @@ def history(ctx, entry="interdiff", ne=1, seq=((0.10, 900.0), (0.20, 1000.0)), k
         ctx.prove("repeating the call gives the same answer", _same(ctx, np.asarray(r_hist), np.asarray(r_again)))
 
 
+def sampling_history(ctx, npts=2, keep=True, same=False, ordered=False):
+    """sampling driving force through the real getDrivingForce -> _getDrivingForceSampling ->
+    _getPrecCompositionSetSamplingDF (pycalphad's calculate / CompositionSet and the matrix local equilibrium stubbed):
+    two successive queries on one object at symbolic temperatures T1 != T2 (arbitrarily close); the second answer equals a
+    fresh object's answer at T2, the precipitate free-energy samples in use are those of T2, and the precipitate composition
+    set handed back carries T2"""
+    _TH = sys.modules["kawin.thermo.Thermodynamics"]
+    x = ctx.real("x", (0.01, 0.2))
+    T1 = ctx.real("T1", (700.0, 702.0)); T2 = ctx.real("T2", (700.0, 702.0))
+    ctx.assume(T1 > 0); ctx.assume(T2 > 0)
+    if same:
+        T2 = T1
+    else:
+        ctx.assume(T1 != T2, "the temperature changed between the two queries (by any amount)")
+    Xs = [[1.0 - (j + 1.0) / (npts + 1.0), (j + 1.0) / (npts + 1.0)] for j in range(npts)]      # the (temperature independent) sample grid
+    log = []
+
+    class SamplingCS(_CompSet):
+        def update(self, site_fractions, phase_amt, state_variables):
+            _CompSet.update(self, site_fractions, phase_amt, state_variables)
+            self.X = [self.dof[4], self.dof[5]]
+
+    def calculate(db, elements, phase, pdens=None, model=None, output=None, phase_records=None, conditions=None, to_xarray=True, **cond):
+        T = cond["T"]
+        log.append((phase, output, T))
+        pts = type("Points", (), {})()
+        pts.X = np.array([[Xs[j] for j in range(npts)]])
+        pts.Y = np.array([[Xs[j] for j in range(npts)]])
+        # free energy of sample j of the precipitate phase: an arbitrary function of the temperature it is sampled at
+        pts.GM = np.array([[ctx.uf("GM%d" % j, T, rng=(-5.0, -1.0)) for j in range(npts)]])
+        ocm = [ctx.uf("OCM%d" % j, T, rng=((-1.0, -0.1) if j == 0 else (-1.0, 1.0))) for j in range(npts)]
+        if ordered:
+            ctx.assume(ocm[0] < -1e-6, "an ordered precipitate phase has at least one sample below the disordered surface")
+        pts.OCM = np.array([ocm])
+        return pts
+
+    def mk():
+        th = object.__new__(GeneralThermodynamics)
+        th.phases = ["ALPHA", "P1"]; th.elements = ["A", "B", "VA"]; th.numElements = 2
+        th.db = None; th.models = {"ALPHA": "model-alpha", "P1": "model-p1"}; th.phase_records = _PR()
+        th.sampling_pDens = 2000; th.orderedPhase = {"ALPHA": False, "P1": ordered}
+        th.clearCache()
+        th.setDrivingForceMethod("sampling")
+
+        def getLocalEq(xx, T, gExtra=0, precPhase=None, composition_sets=None):
+            xs = list(np.atleast_1d(xx))
+            res = type("Result", (), {})()
+            res.chemical_potentials = np.array([ctx.uf("mu%d" % c, *xs, T, rng=(-3.0, -1.0)) for c in range(2)])
+            return res, [SamplingCS(th.phase_records["ALPHA"])]
+        th.getLocalEq = getLocalEq
+        return th
+    with patched(_TH, "calculate", calculate), patched(_TH, "CompositionSet", SamplingCS):
+        warm = mk()
+        d1, c1 = warm.getDrivingForce(x, T1, precPhase="P1", removeCache=not keep)
+        n1 = len(log)
+        d2, c2 = warm.getDrivingForce(x, T2, precPhase="P1", removeCache=not keep)
+        n2 = len(log)
+        fresh = mk()
+        df, cf = fresh.getDrivingForce(x, T2, precPhase="P1", removeCache=False)
+        ctx.observe("dg_hist", d2 * 1.0); ctx.observe("dg_fresh", df * 1.0)
+        ctx.prove("sampling driving force after a query at another temperature equals a fresh object's answer",
+                  ctx.all([ctx.eq(d2 * 1.0, df * 1.0), ctx.eq(c2 * 1.0, cf * 1.0)]))
+        if not same:
+            ctx.prove("precipitate phase re-sampled for the new query", n2 > n1)
+            if n2 > n1:
+                ctx.prove("precipitate phase re-sampled at the temperature of the new query", ctx.all([ctx.eq(t, T2) for (_, _, t) in log[n1:n2]]))
+        if keep:
+            sc = warm._points_cache["P1"]; sf = fresh._points_cache["P1"]
+            ctx.prove("cached precipitate samples are those of the last queried temperature",
+                      ctx.all([ctx.eq(sc.temperature, T2)] + [ctx.eq(np.squeeze(sc.samples.GM)[j], np.squeeze(sf.samples.GM)[j]) for j in range(npts)]))
+        else:
+            ctx.prove("removeCache: no samples kept", warm._points_cache["P1"] == SampledPointsCache())
+        # the composition set handed back by the real _getPrecCompositionSetSamplingDF (one more direct call on the warm object)
+        mu = fresh.getLocalEq(x, T2)[0].chemical_potentials
+        dgd, cs = warm._getPrecCompositionSetSamplingDF(x, T2, mu, "P1")
+        ctx.prove("direct call agrees with the fresh object's answer", ctx.eq(dgd * 1.0, df * 1.0))
+        ctx.prove("precipitate composition set carries the state variables of the query (GE offset, N, P, T)",
+                  ctx.all([ctx.eq(cs.dof[0], 1.0), ctx.eq(cs.dof[1], 1.0), ctx.eq(cs.dof[2], 101325.0), ctx.eq(cs.dof[3], T2)]))
+
+
 def reset(ctx, multi=False):
     """clearCache and _resetDrivingForceCache(removeCache=True) leave every cache attribute in its initial state;
     removeCache=False leaves the caches alone"""
@@ -884,7 +964,18 @@ HARNESSES = [
                                             [[0.2, 950.0, "P1"], [0.2, 950.0, "ALPHA"], [0.3, 800.0, "P1"], [0.3, 800.0]])]}),
     Harness("C09.reset", reset, functions=[GeneralThermodynamics.clearCache, MulticomponentThermodynamics.clearCache, GeneralThermodynamics._resetDrivingForceCache, HashTable.clearCache],
             params={"quick": [{"multi": False}, {"multi": True}], "thorough": [{"multi": False}, {"multi": True}]}),
+    Harness("C09.sampling_history", sampling_history,
+            functions=[GeneralThermodynamics.getDrivingForce, GeneralThermodynamics._getDrivingForceSampling, GeneralThermodynamics._getPrecCompositionSetSamplingDF,
+                       GeneralThermodynamics._resetDrivingForceCache, GeneralThermodynamics._setupSubModels, GeneralThermodynamics.setDrivingForceMethod],
+            assumptions=["T1 != T2 symbolic, arbitrarily close; sample grid of the precipitate phase fixed, sampled free energies are arbitrary functions of the sampling temperature",
+                         "matrix chemical potentials are an uninterpreted function of (x, T)", "ordered variant: at least one sample has an ordering contribution below the tolerance"],
+            stubs=["pycalphad calculate (precipitate sampling): GM_j = uninterpreted function of T; CompositionSet stand-in; getLocalEq (matrix-only local equilibrium): uninterpreted mu(x, T)"],
+            bounds={"sample points": "npts", "queries": 2},
+            params={"quick": [{"npts": 2, "keep": True}, {"npts": 2, "keep": False}, {"npts": 2, "keep": True, "same": True}, {"npts": 2, "keep": True, "ordered": True}],
+                    "thorough": [{"npts": n, "keep": k, "same": sm, "ordered": o} for n in (2, 3) for k in (True, False) for sm in (False, True) for o in (False, True)]}),
 ]
+
+
 
 from harness.c09_extra import EXTRA as _EXTRA
 HARNESSES = HARNESSES + _EXTRA
